@@ -32,10 +32,14 @@ type Run struct {
 	traceOn bool
 	NowNs   int64 // virtual time
 	Viol    []Violation
-	Known   []Violation
-	known   *KnownFindings
-	Steps   int
-	OpCount int
+	// ClassTag is appended to the class of every violation raised from now on: a world sets it when the run has
+	// entered a history that a recorded finding is about, so that the finding is identified by that history and the
+	// same violation class outside it is still reported
+	ClassTag string
+	Known    []Violation
+	known    *KnownFindings
+	Steps    int
+	OpCount  int
 }
 
 const maxTrace = 400
@@ -95,7 +99,7 @@ func (r *Run) Advance(ns int64) { r.NowNs += ns }
 // Violate reports a violation. If it matches an open known finding the run continues,
 // otherwise the run is unwound.
 func (r *Run) Violate(class, format string, a ...interface{}) {
-	v := Violation{Class: class, Msg: fmt.Sprintf(format, a...)}
+	v := Violation{Class: class + r.ClassTag, Msg: fmt.Sprintf(format, a...)}
 	r.Logf("VIOLATION %s: %s", v.Class, v.Msg)
 	if r.known != nil && r.known.Match(r.Prop, v) != nil {
 		if len(r.Known) < 16 {
